@@ -447,6 +447,9 @@ func (g *Gen) Op(name string, ac *chain.Actor, ctx sdk.Context) sdk.Msg {
 	if m := CommitOps(g, ac, name, ctx); m != nil {
 		return m
 	}
+	if m := OrderOps(g, ac, name, ctx); m != nil {
+		return m
+	}
 	return nil
 }
 
